@@ -178,6 +178,28 @@ func (c *Client) WaitReplies(n int, timeout time.Duration) bool {
 	return len(c.replies) >= n
 }
 
+// WaitRepliesProgress waits for n replies as long as bytes keep arriving: it gives up only when nothing at
+// all arrived for idle, or after max. A peer with a tiny receive window is served at the pace of TCP's
+// window probes, which is slow but is not a stall.
+func (c *Client) WaitRepliesProgress(n int, idle, max time.Duration) bool {
+	end := time.Now().Add(max)
+	for {
+		c.mu.Lock()
+		before := c.total
+		c.mu.Unlock()
+		if c.WaitReplies(n, idle) {
+			return true
+		}
+		c.mu.Lock()
+		moved := c.total != before
+		done := c.eof || c.badResp != nil
+		c.mu.Unlock()
+		if done || !moved || time.Now().After(end) {
+			return false
+		}
+	}
+}
+
 // WaitEOF waits until the peer closed the connection.
 func (c *Client) WaitEOF(timeout time.Duration) bool {
 	deadline := time.Now().Add(timeout)
